@@ -1,0 +1,9 @@
+//go:build !verif
+// +build !verif
+
+package html
+
+// verifPoint is an observation point for the verification harness. It does
+// nothing unless the package is built with the "verif" build tag (see
+// verif_hook.go).
+func verifPoint(string, interface{}, interface{}) {}
